@@ -526,3 +526,110 @@ func enclosingLoop(root ast.Node, blk *ast.BlockStmt) (ast.Stmt, bool) {
 	})
 	return found, found != nil
 }
+
+// byte-moves: the splice instructions move bytes between buffers that may be one and the same stack item (MEMCPY
+// of a buffer onto itself). The builtin copy is defined for overlapping operands; an element-by-element loop is
+// not (a forward loop re-reads bytes it has just written). So in pkg/vm no loop stores into an element of a byte
+// slice that was not allocated in the same function a byte taken from another byte slice.
+func ruleByteMoves(c *Ctx) {
+	pk := c.P.Pkg("pkg/vm")
+	if pk == nil {
+		c.Lost("anchor", "pkg/vm not found")
+		return
+	}
+	isBytes := func(t types.Type) bool {
+		if t == nil {
+			return false
+		}
+		sl, ok := t.Underlying().(*types.Slice)
+		if !ok {
+			return false
+		}
+		b, ok := sl.Elem().Underlying().(*types.Basic)
+		return ok && b.Kind() == types.Uint8
+	}
+	ncopy, nloop := 0, 0
+	for _, fd := range c.P.AllFuncDecls() {
+		if fd.Pkg != pk || fd.Decl.Body == nil {
+			continue
+		}
+		f := c.P.NewFuncCFG(fd)
+		info := f.Info
+		for _, s := range f.CallSites("builtin.copy") {
+			if len(s.call.Args) == 2 && isBytes(info.TypeOf(s.call.Args[0])) {
+				ncopy++
+			}
+		}
+		fresh := func(e ast.Expr) bool { // the slice was made in this function: nothing else can alias it
+			root := rootObj(info, e)
+			v, ok := root.(*types.Var)
+			if !ok || f.params[v] || v.IsField() {
+				return false
+			}
+			ds := f.defs[v]
+			if len(ds) == 0 {
+				return false
+			}
+			for _, d := range ds {
+				for _, r := range d.rhs {
+					call, ok := ast.Unparen(r).(*ast.CallExpr)
+					if !ok || f.calleeSym(call) != "builtin.make" {
+						return false
+					}
+				}
+			}
+			return true
+		}
+		k := 0
+		ast.Inspect(fd.Decl.Body, func(x ast.Node) bool {
+			var body *ast.BlockStmt
+			var ranged ast.Expr
+			switch y := x.(type) {
+			case *ast.RangeStmt:
+				body, ranged = y.Body, y.X
+			case *ast.ForStmt:
+				body = y.Body
+			default:
+				return true
+			}
+			ast.Inspect(body, func(z ast.Node) bool {
+				as, ok := z.(*ast.AssignStmt)
+				if !ok || len(as.Lhs) != 1 || len(as.Rhs) != 1 {
+					return true
+				}
+				ix, ok := ast.Unparen(as.Lhs[0]).(*ast.IndexExpr)
+				if !ok || !isBytes(info.TypeOf(ix.X)) || fresh(ix.X) {
+					return true
+				}
+				// the stored byte comes from another byte slice: an index expression of one, or the value of a range over one
+				fromBytes := false
+				ast.Inspect(as.Rhs[0], func(w ast.Node) bool {
+					switch e := w.(type) {
+					case *ast.IndexExpr:
+						if isBytes(info.TypeOf(e.X)) {
+							fromBytes = true
+						}
+					case *ast.Ident:
+						if rs, ok := x.(*ast.RangeStmt); ok && rs.Value != nil && ranged != nil && isBytes(info.TypeOf(ranged)) {
+							if vid, ok := rs.Value.(*ast.Ident); ok && info.ObjectOf(vid) == info.ObjectOf(e) {
+								fromBytes = true
+							}
+						}
+					}
+					return true
+				})
+				if fromBytes {
+					nloop++
+					k++
+					c.Fail(fmt.Sprintf("%s.element-copy#%d", FuncKey(fd.Obj), k), c.P.Pos(as.Pos()), fmt.Sprintf("%s moves bytes between two slices one element at a time (%s): when both are the same buffer and the ranges overlap the loop re-reads bytes it has already overwritten, and the result differs from the specified (memmove) semantics of the instruction", FuncKey(fd.Obj), f.nodeStr(as)))
+				}
+				return true
+			})
+			return true
+		})
+	}
+	if nloop == 0 {
+		c.OK("no-element-copy", "pkg/vm", fmt.Sprintf("%d byte moves in pkg/vm use the builtin copy (defined for overlapping operands); no loop stores bytes of one possibly shared slice into another", ncopy))
+	}
+	c.Floor("builtin copy calls on byte slices in pkg/vm", ncopy, 4)
+}
